@@ -9,7 +9,7 @@ PUBCOMP_R = [0, 146]
 class S:
     """script builder that tracks what identifiers the library will assign"""
 
-    def __init__(self, connack_props=(), connect_opts="", run=True):
+    def __init__(self, connack_props=(), connect_opts="", run=True, via_auth=False):
         self.evs = []
         self.pid_ctr = 1
         self.sub_ctr = 1
@@ -18,7 +18,14 @@ class S:
         self.tags = set()
         self.inflight = 0
         self.rmax = dict(connack_props).get(33, 65535)
-        self.ev(("connect " + connect_opts).strip())
+        if via_auth:
+            # enhanced authentication: CONNECT, AUTH challenge, AUTH response, then the CONNACK arrives in authorize()
+            self.ev(("connect am=6d ad=01 " + connect_opts).strip())
+            self.ev("deliver " + hx(M.auth(24, [(21, b"m"), (22, b"\x07")])))
+            self.ev("auth r=24 am=6d ad=02")
+            self.tags.add("via-auth")
+        else:
+            self.ev(("connect " + connect_opts).strip())
         self.ev("deliver " + hx(M.connack(ps=connack_props)))
         if run:
             self.ev("run")
@@ -496,9 +503,9 @@ def c09(tier, rng):
            "frees a slot, QoS 0 and other operations unlimited), then random walks with failing reasons.")
 def c10(tier, rng):
     out = []
-    for R in (1, 2, 3):
+    for R, via in ((1, False), (2, False), (3, False), (1, True), (2, True)):
         for comp in ("puback", "pubcomp", "pubrecfail", "pubackfail", "pubcompfail"):
-            s = S(connack_props=[(33, R)])
+            s = S(connack_props=[(33, R)], via_auth=via)
             q = 1 if comp.startswith("puback") else 2
             ops = [s.pub(q=q) for _ in range(R + 1)]
             for i in ops:
@@ -522,7 +529,7 @@ def c10(tier, rng):
                 s.poll(i)
             for i in more:
                 s.poll(i)                          # one accepted, one refused
-            out.append(case("R%d-%s" % (R, comp), s.script(), ["R%d" % R, comp]))
+            out.append(case("R%d-%s%s" % (R, comp, "-auth" if via else ""), s.script(), ["R%d" % R, comp] + (["via-auth"] if via else [])))
     # default R = 65535: no refusal after many publishes
     s = S()
     s.ev("spin 300 1000 pub1 0")
@@ -539,6 +546,16 @@ def c10(tier, rng):
     for i in ops:
         s.poll(i)
     out.append(case("stray-acks", s.script(), ["stray"]))
+    for nm, pk in (("puback", M.puback(7, 128)), ("pubrec", M.pubrec(7, 128)), ("pubcomp", M.pubcomp(7, 146)),
+                   ("pubrec-ok", M.pubrec(7, 16))):
+        s = S()                                   # no Receive Maximum announced: R = 65535, quota full
+        s.deliver(pk), s.deliver(pk)
+        ops = [s.pub(q=1), s.pub(q=2)]
+        for i in ops:
+            s.poll(i)
+        for i in ops:
+            s.poll(i)
+        out.append(case("stray-full-%s" % nm, s.script(), ["stray", "Rabsent"]))
     for k in range(n_cases(tier, 150, 3000)):
         out.append(walk(rng, rng.choice([30, 60]) if tier == "quick" else rng.choice([80, 300]),
                         {"kinds": ["pub0", "pub1", "pub2", "pub1", "pub2", "ping"], "fail": 0.35,
@@ -561,6 +578,12 @@ def c11(tier, rng):
     s.ev("spin 60 70000 pub1 0")
     s.ev("spin 20 71000 pub2 1")
     out.append(case("wrap-window", s.script(), ["wrap", "window"], release=False))
+    for kind in ("pub1", "pub2", "sub", "unsub"):
+        s = S()
+        s.ev("spin 65535 0 pub1 1")            # 65535 allocations: the counter has wrapped to 0
+        s.ev("spin 3 70000 %s 0" % kind)       # the next allocation, of every kind, while it stays outstanding
+        s.ev("spin 3 71000 pub1 1")
+        out.append(case("wrap-met-by-%s" % kind, s.script(), ["wrap", "wrapkind"], release=False))
     if tier == "thorough":
         s = S()
         s.ev("spin 65534 0 pub2 1")
@@ -682,6 +705,13 @@ def c13(tier, rng):
         p = s.ping()
         s.ev("hold"), s.poll(d), s.poll(p), s.ev("release"), s.poll(d), s.poll(p)
         out.append(case("userdisc-" + name, s.script(), ["userdisc"]))
+        # the disconnect() future is dropped after its first poll (request queued, not yet processed)
+        s = mk()
+        d = s.disc()
+        p = s.pub(q=1, payload=b"after")
+        s.ev("hold"), s.poll(d), s.ev("dropop %d" % d), s.poll(p), s.ev("release"), s.poll(p)
+        s.deliver(M.publish(b"t", b"late", 1, 77))
+        out.append(case("userdisc-dropped-" + name, s.script(), ["userdisc", "dropped"]))
         for r in (DISC_R if name == "idle" or tier == "thorough" else [0, 4, 139, 142]):
             for form in ("auto", "long"):
                 s = mk()
@@ -760,6 +790,30 @@ def c14(tier, rng):
                 s.ev("pollstream %d" % ops[1])
         s.ev("sweep")
         out.append(case("prefix%d" % upto, s.script(), ["prefix", "held" if held else "settled"]))
+    for cause in ("srvdisc", "eof", "undecodable"):
+        for kinds in (("disc",), ("ping", "pub1", "disc"), ("sub", "pub2", "unsub", "pub0")):
+            s = S()
+            first = s.pub(q=1)
+            s.poll(first)
+            if cause == "srvdisc":
+                s.deliver(M.disconnect(139))
+            elif cause == "eof":
+                s.ev("eof")
+            else:
+                s.ev("deliver 1000")
+            # run() has returned; requests queued now are never processed
+            ops = []
+            for kd in kinds:
+                mk = {"disc": lambda: s.disc("r=4"), "ping": s.ping, "pub0": lambda: s.pub(q=0), "pub1": lambda: s.pub(q=1),
+                      "pub2": lambda: s.pub(q=2), "sub": s.sub, "unsub": s.unsub}[kd]
+                i = mk()
+                ops.append(i)
+                s.poll(i)
+            s.ev("dropctx")
+            for i in [first] + ops:
+                s.poll(i)
+            s.ev("sweep")
+            out.append(case("after-run-%s-%s" % (cause, "+".join(kinds)), s.script(), ["after-run", cause]))
     for k in range(n_cases(tier, 80, 2000)):
         out.append(walk(rng, rng.choice([10, 25, 50]) if tier == "quick" else rng.choice([20, 60, 200]),
                         {"streams": True, "hold": True, "dropctx_at_end": True, "fail": 0.1}, "walk%d" % k))
@@ -784,8 +838,9 @@ def c15(tier, rng):
     out = [k2_case()]
     kinds = ["pub0", "pub1", "pub2", "sub", "unsub", "ping"]
     n = 0
-    for kind in kinds:
-        for point in ("unpolled", "queued", "awaiting", "phase2"):
+    for kind, point, between in [(k_, p_, b_) for k_ in kinds for p_ in ("unpolled", "queued", "awaiting", "phase2")
+                                 for b_ in (False, True)]:
+        if True:
             if point == "phase2" and kind != "pub2":
                 continue
             s = S(connack_props=[(33, 2)])
@@ -803,6 +858,10 @@ def c15(tier, rng):
                 if point == "phase2":
                     s.deliver(M.pubrec(2)), s.poll(i)
                 s.ev("dropop %d" % i)
+            if between:
+                # somebody else's requests are processed before the late acknowledgement arrives
+                bp, bz = s.ping(), s.pub(q=0, payload=b"between")
+                s.poll(bp), s.poll(bz), s.poll(bz)
             # the late acknowledgement(s) of the abandoned operation
             pid = s.ops[i]["pid"]
             if s.ops[i]["polled"]:
@@ -817,7 +876,9 @@ def c15(tier, rng):
             s.poll(x), s.poll(y), s.poll(x), s.poll(y)
             pg = s.ping()
             s.poll(pg), s.deliver(M.pingresp()), s.poll(pg)
-            out.append(case("cancel-%s-%s" % (kind, point), s.script(), [kind, point]))
+            if between:
+                s.deliver(M.pingresp()), s.poll(bp), s.poll(pg)
+            out.append(case("cancel-%s-%s%s" % (kind, point, "-between" if between else ""), s.script(), [kind, point]))
             n += 1
     # dropping a stream
     s = S()
@@ -841,6 +902,18 @@ def c15(tier, rng):
            "quiescence a sweep must change nothing.")
 def c16(tier, rng):
     out = []
+    # long inbound packets arriving one byte per transport event: only the wakeups of the transport drive the client
+    for L in (130, 200, 700, 1300):
+        st = S()
+        a = st.sub(b"a")
+        st.poll(a), st.deliver(M.suback(1)), st.poll(a), st.ev("tostream %d" % a)
+        pk = M.publish(b"a", bytes((i * 3) % 251 for i in range(L)), 1, 9, ps=[(11, 1)]) + M.pingresp()
+        pg = st.ping()
+        st.poll(pg)
+        for bt in pk:
+            st.ev("deliver %02x" % bt)
+        st.ev("pollstream %d" % a), st.poll(pg), st.ev("sweep")
+        out.append(case("bytewise-%d" % L, st.script(), ["bytewise"]))
     for k in range(n_cases(tier, 150, 3000)):
         c = walk(rng, rng.choice([20, 40]) if tier == "quick" else rng.choice([40, 150]),
                  {"spurious": True, "streams": True, "drops": k % 4 == 0, "hold": k % 3 == 0, "fail": 0.2,
@@ -914,4 +987,42 @@ def c17(tier, rng):
             for i in ops:
                 s.poll(i)
             out.append(case("p%d-%s" % (upto, label), s.script(), [label, "prefix%d" % upto]))
+    # requests that are not re-sent (SUBSCRIBE, PINGREQ, UNSUBSCRIBE) pending among the publishes: the retransmit queue
+    # and the queue of awaited acknowledgements do not line up
+    def resume(s, sei):
+        s.ev("reconnect")
+        s.ev("connect sei=%d" % sei)
+        s.deliver(M.connack(1))
+        s.ev("run")
+    for variant in range(6):
+        for label, sei, elapsed in (("fresh", 1000, 10), ("never", 4294967295, 99999)):
+            s = S(connect_opts="sei=%d" % sei)
+            pre = [s.sub(b"x"), s.ping()][: 1 + variant % 2] if variant < 4 else [s.unsub(b"u"), s.sub(b"y"), s.ping()]
+            for i in pre:
+                s.poll(i)
+            a, b, c3 = s.pub(q=1, payload=b"A"), s.pub(q=2, payload=b"B"), s.pub(q=1, payload=b"C")
+            for i in (a, b, c3):
+                s.poll(i)
+            pa, pb, pc = s.ops[a]["pid"], s.ops[b]["pid"], s.ops[c3]["pid"]
+            if variant % 3 == 0:
+                s.deliver(M.puback(pa)), s.poll(a)
+            elif variant % 3 == 1:
+                s.deliver(M.pubrec(pb)), s.poll(b)
+            else:
+                s.deliver(M.puback(pc)), s.poll(c3), s.deliver(M.pubrec(pb)), s.poll(b), s.deliver(M.pubcomp(pb)), s.poll(b)
+            s.ev("markdisc %d" % elapsed)
+            resume(s, sei)
+            for i in (a, b, c3):
+                s.poll(i)
+            if variant >= 3:
+                # the connection is lost again before anything is acknowledged: everything is re-sent once more
+                s.ev("markdisc %d" % elapsed)
+                resume(s, sei)
+            s.deliver(M.puback(pa)), s.deliver(M.pubrec(pb)), s.deliver(M.puback(pc))
+            for i in (a, b, c3):
+                s.poll(i)
+            s.deliver(M.pubcomp(pb))
+            for i in (a, b, c3):
+                s.poll(i)
+            out.append(case("mixed%d-%s" % (variant, label), s.script(), [label, "mixed", "twice" if variant >= 3 else "once"]))
     return out
